@@ -62,6 +62,39 @@ def parse(data, parser=None, via_file=None) -> Outcome:
     return o
 
 
+def snapshot(p, with_tree=True):
+    """What a caller can read from a Parser object after parse(): taken right after the call
+    and again after OTHER Parser objects have run, the two must agree."""
+    tree = None
+    if with_tree:
+        res = getattr(p, "result", None)
+        try:
+            tree = nf_result(res) if isinstance(res, list) else repr(res)
+        except RecursionError:
+            tree = "too-deep"
+        except Exception as e:  # a tree that can no longer be walked is a difference too
+            tree = "unwalkable:%s" % type(e).__name__
+    return (tree, getattr(p, "error", None), getattr(p, "error_pos", None))
+
+
+ALL_EXTS = ["fileinto", "reject", "envelope", "body", "imap4flags", "date", "vacation",
+            "vacation-seconds", "variables", "copy", "mailbox", "relational", "regex"]
+
+
+def complete_require_by_hand(exts=ALL_EXTS):
+    """Use of the commands module BETWEEN two parses, the way the filter factory or any
+    other client of sievelib.commands may: a `require` command object is built and completed
+    by hand, which registers its extensions in the module's process-wide list.  The next
+    parse must not start from that list.  -> True when the API calls went through."""
+    try:
+        c = sl_commands.get_command_instance("require")
+        c.check_next_arg("stringlist", ['"%s"' % e for e in exts])
+        c.complete_cb()
+        return True
+    except Exception:
+        return False
+
+
 _ERRNORM = [
     (re.compile(r"^line \d+: "), ""),
     (re.compile(r"near '.*'$", re.S), "near X"),
